@@ -52,8 +52,11 @@ func (e *Exec) newNondet(kind string, w uint8, sg bool, lo, hi int64) Int {
 		raw := Int{W: w, Sg: sg, S: &Term{Name: t.Name, Sort: t.Sort}}
 		c1 := e.intCmp(token.GEQ, raw, normInt(Int{W: w, Sg: sg, C: lo}))
 		c2 := e.intCmp(token.LEQ, raw, normInt(Int{W: w, Sg: sg, C: hi}))
+		// range constraints of a fresh constant are always satisfiable: they do not make the path condition "dirty"
+		d := e.pcDirty
 		e.assume(c1)
 		e.assume(c2)
+		e.pcDirty = d
 	}
 	e.vec = append(e.vec, VecEntry{Kind: kind, Name: t.Name, W: w, Sg: sg})
 	return x
